@@ -251,7 +251,7 @@ SGal3Base<_Derived>::inverse(OptJacobianRef J_minv_m) const {
   const SO3<Scalar> so3inv = asSO3().inverse();
 
   return LieGroup(
-    -so3inv.act((translation()-t()*linearVelocity())),
+    -so3inv.act(translation()) + t()*so3inv.act(linearVelocity()),
      so3inv,
     -so3inv.act(linearVelocity()),
     -t()
